@@ -155,6 +155,7 @@ def handle (j : Json) : R Json := do
                  ("cores", jArr (r.cands.map fun c => match c.coreLoc r with | .ok l => locToJson l | .error e => Json.str e)),
                  ("refs_valid", toJson (refsValid r)), ("sorted", toJson (areasSorted r)),
                  ("swo", toJson (strictWeak r)), ("nodup", toJson (decide (allEntries r).Nodup)),
+                 ("scope_wf", toJson (scopeButOrder r)),
                  ("swo_witness", if boolFD j "debug" false then Json.str (swoWitness r) else Json.null)]
   | "read" =>
     -- `Record.from_biopython` on an arbitrary feature list
